@@ -78,6 +78,10 @@ type World struct {
 	// DialFault, when set, may fail a connection attempt: return a non-zero errno, or
 	// blackhole=true to swallow the SYN (the dial ends when its context does).
 	DialFault func(from *Host, to netip.AddrPort) (errno syscall.Errno, blackhole bool)
+	// MinFirstReadFor, when set, is asked for every new connection end (local and remote address
+	// as that end sees them) how many bytes its first reads must deliver unfragmented
+	// (see TCPConn.MinFirstRead); 0 = no constraint.
+	MinFirstReadFor func(local, remote netip.AddrPort) int
 
 	// --- UDP knobs ---
 	UDPDropP     int // 0..256 per datagram
@@ -305,6 +309,44 @@ func (w *World) Describe(sis []*SockInfo) string {
 	out := ""
 	for _, si := range sis {
 		out += fmt.Sprintf(" #%d %s %s %v->%v opened@%v", si.ID, si.Kind, si.Creator, si.Local, si.Remote, si.Opened)
+	}
+	return out
+}
+
+// HasTCPListener reports whether something listens on the TCP port of this host.
+func (h *Host) HasTCPListener(port uint16) bool {
+	for _, l := range h.tcpL[port] {
+		if !l.closed {
+			return true
+		}
+	}
+	return false
+}
+
+// HasUDPSocket reports whether a UDP socket is bound to the port on this host.
+func (h *Host) HasUDPSocket(port uint16) bool {
+	for _, c := range h.udp[port] {
+		if !c.closed {
+			return true
+		}
+	}
+	return false
+}
+
+// UDPSockets lists the open UDP sockets of this host created by creator ("" = any).
+func (h *Host) UDPSockets(creator string) []*UDPConn {
+	var ports []int
+	for p := range h.udp {
+		ports = append(ports, int(p))
+	}
+	sort.Ints(ports)
+	var out []*UDPConn
+	for _, p := range ports {
+		for _, c := range h.udp[uint16(p)] {
+			if !c.closed && (creator == "" || c.si.Creator == creator) {
+				out = append(out, c)
+			}
+		}
 	}
 	return out
 }
